@@ -1,14 +1,16 @@
 #!/bin/sh
-# usage: tools/confirm_seed.sh <ID> <name>   confirms an adversarial change in /tmp/mut/<ID>: existing tests unchanged, demo fails with / passes without
+# usage: tools/confirm_seed.sh <ID>   confirms an adversarial change in /tmp/mut/<ID>: existing tests unchanged, demo fails with / passes without
+# (no git stash: the stash is shared by all worktrees of a repository)
 ID="$1"; D=/tmp/mut/$ID; lc=$(echo $ID | tr A-Z a-z)
 cd $D || exit 2
 export CARGO_NET_OFFLINE=true
+git diff -- src > /tmp/mut/$ID.confirm.diff
 echo "--- with change: existing tests"
 cargo test --offline --no-fail-fast 2>&1 | grep -E "^test result" | tr '\n' ';'; echo
 echo "--- with change: demo"
-cargo test --offline --test demo_$lc 2>&1 | grep -E "^test result|panicked" | head -3
-git stash push -q -- src
+cargo test --offline --test demo_$lc 2>&1 | grep -E "^test result" | head -3
+git checkout -- src
 echo "--- original: demo"
-cargo test --offline --test demo_$lc 2>&1 | grep -E "^test result|panicked" | head -3
-git stash pop -q
+cargo test --offline --test demo_$lc 2>&1 | grep -E "^test result" | head -3
+git apply /tmp/mut/$ID.confirm.diff
 git diff --stat -- src | tail -1
